@@ -388,6 +388,9 @@ class StorySend(MosFile):
             warnings.warn(msg, StoryNotFoundWarning)
             return ro
 
+        # _find_story counts stories only; the story's position among all the
+        # children of the running order is needed to put the new one in place
+        story_index = list(ro.base_tag).index(story)
         remove_node(parent=ro.base_tag, node=story)
         insert_node(parent=ro.base_tag, node=self.story.xml, index=story_index)
         return ro
